@@ -1,4 +1,5 @@
-(* Proofs about Model/FruParse.v against Model/FruSpec.v (C15). *)
+(* Proofs about Model/FruParse.v against Model/FruSpec.v (C15): the parser inverts the
+   independent encoder. *)
 From Coq Require Import String.
 From Coq Require Import NArith List Lia ZArith ZifyN ZifyBool ZifyNat Bool.
 From PyIpmi Require Import Lib.Res Lib.Bytes Lib.Bits Gen.FruTables Model.FruParse Model.FruSpec.
@@ -9,3 +10,504 @@ Ltac Zify.zify_post_hook ::= Z.to_euclidean_division_equations.
 (* the translator understood both constants (fail-closed: otherwise this breaks) *)
 Lemma fru_tables_translated : fru_tables_untranslated = None.
 Proof. reflexivity. Qed.
+Lemma custom_field_end_c1 : custom_field_end = 0xc1.
+Proof. reflexivity. Qed.
+
+(* ---- byte-level bit identities, by exhaustion over the 256 byte values ---- *)
+Definition all_bytes : list N := map N.of_nat (seq 0 256).
+Lemma byte_forall (P : N -> bool) : forallb P all_bytes = true -> forall x, x < 256 -> P x = true.
+Proof.
+  intros H x Hx. rewrite forallb_forall in H. apply H. unfold all_bytes.
+  apply in_map_iff. exists (N.to_nat x). split; [lia | apply in_seq; lia].
+Qed.
+Lemma byte_bits x : x < 256 ->
+  N.land x 0x3f = x mod 64 /\ N.shiftr (N.land x 0xc0) 6 = x / 64 /\
+  N.land x 0xf = x mod 16 /\ N.shiftr (N.land x 0xf0) 4 = x / 16 /\
+  N.land x 0x3 = x mod 4 /\ N.shiftr (N.land x 0xfc) 2 = x / 4 /\
+  N.land (N.shiftr x 6) 0x3 = x / 64 /\ N.land (N.shiftr x 4) 0xf = x / 16.
+Proof.
+  intros Hx.
+  pose proof (byte_forall (fun x =>
+    (N.land x 0x3f =? x mod 64) && (N.shiftr (N.land x 0xc0) 6 =? x / 64) &&
+    (N.land x 0xf =? x mod 16) && (N.shiftr (N.land x 0xf0) 4 =? x / 16) &&
+    (N.land x 0x3 =? x mod 4) && (N.shiftr (N.land x 0xfc) 2 =? x / 4) &&
+    (N.land (N.shiftr x 6) 0x3 =? x / 64) && (N.land (N.shiftr x 4) 0xf =? x / 16))
+    ltac:(vm_compute; reflexivity) x Hx) as H.
+  cbv beta in H. repeat (apply andb_prop in H as [H ?]).
+  repeat split; now apply N.eqb_eq.
+Qed.
+
+(* ---- list helpers ---- *)
+Lemma firstn_app_len {A} (a b : list A) : firstn (length a) (a ++ b) = a.
+Proof. now apply firstn_app_exact. Qed.
+Lemma skipn_app_len {A} (a b : list A) : skipn (length a) (a ++ b) = b.
+Proof. now apply skipn_app_exact. Qed.
+
+Lemma pair_ind {A} (P : list A -> Prop) :
+  P [] -> (forall a, P [a]) -> (forall a b r, P r -> P (a :: b :: r)) -> forall l, P l.
+Proof.
+  intros H0 H1 H2. fix IH 1. intros [|a [|b r]]; [exact H0 | apply H1 | apply H2, IH].
+Qed.
+Lemma quad_ind {A} (P : list A -> Prop) :
+  P [] -> (forall a, P [a]) -> (forall a b, P [a; b]) -> (forall a b c, P [a; b; c]) ->
+  (forall a b c d r, P r -> P (a :: b :: c :: d :: r)) -> forall l, P l.
+Proof.
+  intros H0 H1 H2 H3 H4. fix IH 1.
+  intros [|a [|b [|c [|d r]]]]; [exact H0 | apply H1 | apply H2 | apply H3 | apply H4, IH].
+Qed.
+
+(* ---- BCD plus ---- *)
+Lemma bcd_char_code c : bcd_char_ok c = true -> bcd_code c < 13 /\ bcd_char (bcd_code c) = Ok [c].
+Proof.
+  unfold bcd_char_ok, bcd_code.
+  destruct ((48 <=? c) && (c <=? 57)) eqn:E1.
+  - intros _. split; [lia|].
+    assert (H : c = 48 \/ c = 49 \/ c = 50 \/ c = 51 \/ c = 52 \/ c = 53 \/ c = 54 \/ c = 55 \/
+                c = 56 \/ c = 57) by lia.
+    repeat (destruct H as [-> | H]; [reflexivity|]). subst; reflexivity.
+  - destruct (c =? 32) eqn:E2; [apply N.eqb_eq in E2; subst; intros _; split; [lia | reflexivity]|].
+    destruct (c =? 45) eqn:E3; [apply N.eqb_eq in E3; subst; intros _; split; [lia | reflexivity]|].
+    destruct (c =? 46) eqn:E4; [apply N.eqb_eq in E4; subst; intros _; split; [lia | reflexivity]|].
+    cbn. discriminate.
+Qed.
+
+Lemma bcd_roundtrip s : forallb bcd_char_ok s = true -> Nat.even (length s) = true ->
+  bcd_decode (enc_bcd s) = Ok s.
+Proof.
+  induction s as [|a|a b r IH] using pair_ind; intros Hc He; [reflexivity | discriminate |].
+  cbn in Hc. apply andb_prop in Hc as [Ha Hc]. apply andb_prop in Hc as [Hb Hc].
+  destruct (bcd_char_code a Ha) as [Ha1 Ha2]. destruct (bcd_char_code b Hb) as [Hb1 Hb2].
+  cbn [enc_bcd bcd_decode].
+  destruct (byte_bits (16 * bcd_code a + bcd_code b) ltac:(lia)) as (_ & _ & Hlo & _ & _ & _ & _ & Hhi).
+  rewrite Hhi, Hlo.
+  replace ((16 * bcd_code a + bcd_code b) / 16) with (bcd_code a) by lia.
+  replace ((16 * bcd_code a + bcd_code b) mod 16) with (bcd_code b) by lia.
+  rewrite Ha2, Hb2. cbn [bind]. rewrite IH by assumption. reflexivity.
+Qed.
+
+Lemma enc_bcd_length s : Nat.even (length s) = true -> (2 * length (enc_bcd s) = length s)%nat.
+Proof.
+  induction s as [|a|a b r IH] using pair_ind; intros He; [reflexivity | discriminate |].
+  cbn [enc_bcd length]. cbn in He. specialize (IH He). lia.
+Qed.
+
+(* ---- 6-bit ASCII ---- *)
+Lemma quad_bytes d0 d1 d2 : d0 < 256 -> d1 < 256 -> d2 < 256 ->
+  quad d0 d1 d2 = [32 + d0 mod 64; 32 + (d0 / 64 + d1 mod 16 * 4);
+                   32 + (d1 / 16 + d2 mod 4 * 16); 32 + d2 / 4].
+Proof.
+  intros H0 H1 H2. unfold quad.
+  destruct (byte_bits d0 H0) as (A1 & A2 & _).
+  destruct (byte_bits d1 H1) as (_ & _ & B3 & B4 & _).
+  destruct (byte_bits d2 H2) as (_ & _ & _ & _ & C5 & C6 & _).
+  rewrite A1, A2, B3, B4, C5, C6.
+  rewrite (lor_shift_add (d0 / 64) (d1 mod 16) 2) by (cbn; lia).
+  rewrite (lor_shift_add (d1 / 16) (d2 mod 4) 4) by (cbn; lia).
+  reflexivity.
+Qed.
+
+Lemma six_ok c : six_char_ok c = true -> 32 <= c < 96.
+Proof. unfold six_char_ok. lia. Qed.
+
+Lemma unpack6_groups_enc s : forallb six_char_ok s = true -> Nat.modulo (length s) 4 <> 3%nat ->
+  (exists pad, unpack6_groups (enc_6bit s) = s ++ pad) /\
+  Nat.div (Nat.mul (length (enc_6bit s)) 8) 6 = length s.
+Proof.
+  induction s as [|a|a b|a b c|a b c d r IH] using quad_ind; intros Hc Hm.
+  - split; [exists []; reflexivity | reflexivity].
+  - cbn in Hc. rewrite andb_true_r in Hc. apply six_ok in Hc.
+    split; [|reflexivity]. cbn [enc_6bit unpack6_groups].
+    rewrite quad_bytes by lia. eexists. cbn [app]. f_equal. lia.
+  - cbn in Hc. apply andb_prop in Hc as [Ha Hc]. rewrite andb_true_r in Hc.
+    apply six_ok in Ha. apply six_ok in Hc.
+    split; [|reflexivity]. cbn [enc_6bit unpack6_groups].
+    rewrite quad_bytes by lia. eexists. cbn [app]. f_equal; [lia|]. f_equal. lia.
+  - cbn in Hm. congruence.
+  - cbn in Hc. apply andb_prop in Hc as [Ha Hc]. apply andb_prop in Hc as [Hb Hc].
+    apply andb_prop in Hc as [Hc' Hc]. apply andb_prop in Hc as [Hd Hc].
+    apply six_ok in Ha. apply six_ok in Hb. apply six_ok in Hc'. apply six_ok in Hd.
+    destruct IH as [[pad Hp] Hl]; [assumption| |].
+    { cbn [length] in Hm. intros E. apply Hm.
+      replace (S (S (S (S (length r))))) with (length r + 1 * 4)%nat by lia.
+      now rewrite Nat.mod_add by lia. }
+    split.
+    + exists pad. cbn [enc_6bit app unpack6_groups]. rewrite quad_bytes by lia. rewrite Hp.
+      cbn [app]. repeat (f_equal; try lia).
+    + cbn [enc_6bit app length]. cbn [length] in Hl. lia.
+Qed.
+
+Lemma six_roundtrip s : forallb six_char_ok s = true -> Nat.modulo (length s) 4 <> 3%nat ->
+  unpack6 (enc_6bit s) = s.
+Proof.
+  intros Hc Hm. destruct (unpack6_groups_enc s Hc Hm) as [[pad Hp] Hl].
+  unfold unpack6. rewrite Hl, Hp. apply firstn_app_len.
+Qed.
+
+(* ---- one type/length field ---- *)
+Lemma type_len_byte t n : t < 4 -> n < 64 ->
+  N.land (N.shiftr (t * 64 + n) 6) 3 = t /\ N.land (t * 64 + n) 0x3f = n.
+Proof.
+  intros Ht Hn. destruct (byte_bits (t * 64 + n) ltac:(lia)) as (A1 & _ & _ & _ & _ & _ & A7 & _).
+  rewrite A1, A7. lia.
+Qed.
+
+Lemma field_type_lt f : field_type f < 4.
+Proof. destruct f; cbn; lia. Qed.
+
+Lemma wf_field_len f : wf_field f = true -> (length (field_payload f) <= 63)%nat.
+Proof. unfold wf_field. intros H. apply andb_prop in H as [H _]. now apply Nat.leb_le. Qed.
+
+Lemma tls_enc off f rest : wf_field f = true ->
+  tls off (enc_field f ++ rest) = Ok (view_field off f).
+Proof.
+  intros Hwf. pose proof (wf_field_len f Hwf) as Hlen. pose proof (field_type_lt f) as Ht.
+  unfold enc_field, view_field. cbn [app tls].
+  destruct (type_len_byte (field_type f) (N.of_nat (length (field_payload f))) Ht ltac:(lia)) as [E1 E2].
+  rewrite E1, E2, Nat2N.id, firstn_app_len.
+  unfold wf_field in Hwf. apply andb_prop in Hwf as [_ Hwf].
+  destruct f as [r|s|s|s]; cbn [field_type field_payload field_string N.eqb Pos.eqb] in *.
+  - reflexivity.
+  - apply andb_prop in Hwf as [Hc He]. now rewrite bcd_roundtrip.
+  - apply andb_prop in Hwf as [Hc Hm]. rewrite six_roundtrip; [reflexivity | assumption|].
+    apply negb_true_iff, Nat.eqb_neq in Hm. exact Hm.
+  - reflexivity.
+Qed.
+
+(* ---- runs of fields ---- *)
+Lemma enc_field_length f : length (enc_field f) = S (length (field_payload f)).
+Proof. reflexivity. Qed.
+
+Fixpoint fields_span (fs : list sfield) : N :=
+  match fs with [] => 0 | f :: r => N.of_nat (length (field_payload f)) + 1 + fields_span r end.
+
+Lemma skipn_enc_field f rest :
+  skipn (N.to_nat (N.of_nat (length (field_payload f))) + 1) (enc_field f ++ rest) = rest.
+Proof.
+  rewrite Nat2N.id. replace (length (field_payload f) + 1)%nat with (length (enc_field f)).
+  - apply skipn_app_len.
+  - rewrite enc_field_length. lia.
+Qed.
+
+Lemma parse_fields_enc fs : forall off rest, forallb wf_field fs = true ->
+  parse_fields (length fs) off (enc_fields fs ++ rest) = Ok (view_fields off fs, off + fields_span fs, rest).
+Proof.
+  induction fs as [|f r IH]; intros off rest Hwf.
+  - cbn. now rewrite N.add_0_r.
+  - cbn in Hwf. apply andb_prop in Hwf as [Hf Hr].
+    unfold enc_fields. cbn [map concat length parse_fields]. rewrite <- app_assoc.
+    rewrite tls_enc by assumption. cbn [bind view_field f_len].
+    rewrite skipn_enc_field. fold (enc_fields r). rewrite IH by assumption. cbn [bind view_fields fields_span].
+    do 3 f_equal. lia.
+Qed.
+
+Lemma custom_fields_enc cs : forall fuel off rest, forallb wf_custom cs = true ->
+  (length cs < fuel)%nat ->
+  custom_fields fuel off (enc_fields cs ++ 0xc1 :: rest) = Ok (view_fields off cs).
+Proof.
+  induction cs as [|f r IH]; intros fuel off rest Hwf Hfuel.
+  - destruct fuel; [cbn in Hfuel; lia|]. cbn. reflexivity.
+  - destruct fuel; [cbn in Hfuel; lia|].
+    cbn in Hwf. apply andb_prop in Hwf as [Hf Hr]. unfold wf_custom in Hf.
+    apply andb_prop in Hf as [Hf Hne].
+    unfold enc_fields. cbn [map concat]. rewrite <- app_assoc. fold (enc_fields r).
+    cbn [custom_fields]. unfold enc_field at 1. cbn [app].
+    rewrite custom_field_end_c1.
+    apply negb_true_iff in Hne. rewrite Hne.
+    change ((field_type f * 64 + N.of_nat (length (field_payload f))) :: field_payload f ++ enc_fields r ++ 193 :: rest)
+      with (enc_field f ++ (enc_fields r ++ 193 :: rest)).
+    rewrite tls_enc by assumption. cbn [bind view_field f_len].
+    rewrite skipn_enc_field. rewrite IH by (try assumption; cbn in Hfuel; lia).
+    reflexivity.
+Qed.
+
+Lemma enc_fields_length_ge fs : (length fs <= length (enc_fields fs))%nat.
+Proof.
+  induction fs as [|f r IH]; [cbn; lia|].
+  unfold enc_fields in *. cbn [map concat]. rewrite app_length, enc_field_length. cbn [length]. lia.
+Qed.
+
+(* ---- zero-sum ---- *)
+Lemma zero_sum_byte_lt l : zero_sum_byte l < 256.
+Proof. unfold zero_sum_byte. lia. Qed.
+Lemma sum256_zero_sum l : sum256 (l ++ [zero_sum_byte l]) = 0.
+Proof. unfold sum256, zero_sum_byte. rewrite sum_app. cbn [sum]. lia. Qed.
+
+(* ---- info areas ---- *)
+Lemma area_blocks_fit dated a :
+  (2 + length (area_body dated a) + 1 <= area_blocks dated a * 8)%nat /\
+  (area_blocks dated a * 8 < 2 + length (area_body dated a) + 1 + 8)%nat.
+Proof. unfold area_blocks. lia. Qed.
+
+Lemma enc_area_length dated a : length (enc_area dated a) = (area_blocks dated a * 8)%nat.
+Proof.
+  pose proof (area_blocks_fit dated a). unfold enc_area.
+  rewrite !app_length, repeat_length. cbn [length]. lia.
+Qed.
+
+Lemma minutes_le m : m < 16777216 ->
+  N.lor (N.lor (N.shiftl (m / 256 / 256 mod 256) 16) (N.shiftl (m / 256 mod 256) 8)) (m mod 256) = m.
+Proof.
+  intros Hm.
+  rewrite (N.lor_comm _ (m mod 256)), (N.lor_comm (N.shiftl _ 16)), N.lor_assoc.
+  rewrite (lor_shift_add (m mod 256) _ 8) by (cbn; lia).
+  rewrite lor_shift_add by (cbn; lia). cbn. lia.
+Qed.
+
+Lemma common_info_gen A blocks rest :
+  length A = (blocks * 8)%nat -> sum256 A = 0 ->
+  firstn 2 A = [1; N.of_nat blocks] ->
+  common_info (A ++ rest) = Ok (1, 8 * N.of_nat blocks).
+Proof.
+  intros Hlen Hsum Hhd. destruct A as [|a0 [|a1 tl]]; try discriminate.
+  cbn in Hhd. injection Hhd as -> ->.
+  unfold common_info. cbn [app idx nth_error bind]. change (N.land 1 15) with 1. cbn [N.eqb Pos.eqb negb].
+  change (1 :: N.of_nat blocks :: tl ++ rest) with ((1 :: N.of_nat blocks :: tl) ++ rest).
+  rewrite firstn_app_exact by (rewrite Hlen; lia). rewrite Hsum. cbn [N.eqb negb].
+  do 2 f_equal. lia.
+Qed.
+
+Lemma parse_area_enc dated nf a rest : wf_area dated nf a = true ->
+  parse_area dated nf (enc_area dated a ++ rest) = Ok (view_area dated a).
+Proof.
+  unfold wf_area. intros H.
+  apply andb_prop in H as [H Hblocks]. apply andb_prop in H as [H Hcust].
+  apply andb_prop in H as [H Hflds]. apply andb_prop in H as [H Hnf].
+  apply andb_prop in H as [Hb2 Hmin]. apply Nat.eqb_eq in Hnf. apply Nat.leb_le in Hblocks.
+  pose proof (enc_area_length dated a) as Hlen. pose proof (area_blocks_fit dated a) as [Hfit _].
+  (* the common part *)
+  assert (Hci : common_info (enc_area dated a ++ rest) = Ok (1, 8 * N.of_nat (area_blocks dated a))).
+  { apply common_info_gen; [exact Hlen | apply sum256_zero_sum | reflexivity]. }
+  unfold parse_area. rewrite Hci. cbn [bind]. clear Hci Hlen Hfit.
+  unfold enc_area.
+  match goal with |- context [repeat 0 ?n] => generalize (repeat 0 n) as pad end. intros pad.
+  match goal with |- context [zero_sum_byte ?l] => generalize (zero_sum_byte l) as cs end. intros cs.
+  unfold area_body. cbn [app]. rewrite <- !app_assoc. cbn [app].
+  set (tail := pad ++ cs :: rest).
+  unfold view_area.
+  assert (Hcl : (length (sa_custom a) < S (length (enc_fields (sa_custom a) ++ 193%N :: tail)))%nat).
+  { rewrite app_length. pose proof (enc_fields_length_ge (sa_custom a)). lia. }
+  destruct dated.
+  - cbn [le_bytes app idx nth_error bind N.to_nat Pos.to_nat Pos.iter_op Nat.add skipn].
+    rewrite minutes_le by lia. change (Pos.to_nat 6) with 6%nat. cbn [skipn].
+    rewrite <- Hnf, parse_fields_enc by assumption. cbn [bind].
+    unfold decode_custom_fields. rewrite custom_fields_enc by assumption. reflexivity.
+  - cbn [app idx nth_error bind N.to_nat Pos.to_nat Pos.iter_op Nat.add skipn].
+    change (Pos.to_nat 3) with 3%nat. cbn [skipn].
+    rewrite <- Hnf, parse_fields_enc by assumption. cbn [bind].
+    unfold decode_custom_fields. rewrite custom_fields_enc by assumption.
+    replace (sa_minutes a) with 0 by lia. reflexivity.
+Qed.
+
+(* ---- multi records ---- *)
+Lemma enc_rec_shape last r : exists h1 h2 h3 h4,
+  enc_rec last r = sr_type r :: h1 :: h2 :: h3 :: h4 :: sr_payload r.
+Proof. unfold enc_rec. cbn [app]. eauto. Qed.
+
+Lemma enc_rec_length last r : length (enc_rec last r) = (5 + length (sr_payload r))%nat.
+Proof. destruct (enc_rec_shape last r) as (? & ? & ? & ? & ->). reflexivity. Qed.
+
+Lemma mr_base_enc last r rest :
+  mr_base (enc_rec last r ++ rest) =
+  Ok (mkRec (sr_type r) 2 last (N.of_nat (length (sr_payload r))) (sr_payload r) KUnknown).
+Proof.
+  unfold enc_rec. cbn [app mr_base].
+  set (h := [sr_type r; (if last then 128 else 0) + 2; N.of_nat (length (sr_payload r));
+             zero_sum_byte (sr_payload r)]).
+  change [sr_type r; (if last then 128 else 0) + 2; N.of_nat (length (sr_payload r));
+          zero_sum_byte (sr_payload r); zero_sum_byte h] with (h ++ [zero_sum_byte h]).
+  rewrite sum256_zero_sum. cbn [N.eqb negb].
+  rewrite Nat2N.id, firstn_app_len.
+  assert (E : (sum (sr_payload r) + zero_sum_byte (sr_payload r)) mod 256 = 0)
+    by (unfold zero_sum_byte; lia).
+  rewrite E. cbn [N.eqb negb]. destruct last; reflexivity.
+Qed.
+
+Lemma view_rec_eol_len last r :
+  r_eol (view_rec last r) = last /\ r_len (view_rec last r) = N.of_nat (length (sr_payload r)).
+Proof. unfold view_rec. destruct (sr_type r =? 192); cbn; auto. Qed.
+
+Lemma parse_record_enc last r rest : wf_rec r = true ->
+  parse_record (enc_rec last r ++ rest) = Ok (view_rec last r).
+Proof.
+  unfold wf_rec. intros H. apply andb_prop in H as [H Hp]. apply andb_prop in H as [H Hlen].
+  apply andb_prop in H as [Ht Hb].
+  pose proof (mr_base_enc last r rest) as Hbase.
+  destruct (enc_rec_shape last r) as (h1 & h2 & h3 & h4 & Hs). rewrite Hs in *. clear Hs.
+  unfold view_rec. cbn [app parse_record] in *.
+  destruct (sr_type r =? 192) eqn:E; [|exact Hbase].
+  apply N.eqb_eq in E. rewrite E in *.
+  apply andb_prop in Hp as [Hl5 Hp].
+  destruct (sr_payload r) as [|p0 [|p1 [|p2 [|p3 [|p4 p']]]]] eqn:Epl; try (cbn in Hl5; discriminate).
+  cbn [app] in Hbase. cbn [app length Nat.ltb Nat.leb]. rewrite Hbase. cbn [bind nth r_type r_eol r_len r_raw firstn skipn le_val].
+  cbn in Hb. repeat (apply andb_prop in Hb as [? Hb]). unfold is_byte in *.
+  assert (Emfr : N.lor (N.lor p0 (N.shiftl p1 8)) (N.shiftl p2 16) = p0 + 256 * (p1 + 256 * (p2 + 256 * 0))).
+  { rewrite (lor_shift_add p0 p1 8) by (change (2 ^ 8) with 256; lia).
+    rewrite lor_shift_add by (change (2 ^ 8) with 256; change (2 ^ 16) with 65536; lia).
+    change (2 ^ 8) with 256; change (2 ^ 16) with 65536. lia. }
+  rewrite Emfr.
+  destruct (p3 =? 39) eqn:E27; [|reflexivity].
+  cbn [nth] in Hp. rewrite E27 in Hp.
+  destruct p' as [|p5 [|p6 p'']]; try (cbn in Hp; discriminate).
+  cbn [app length Nat.ltb Nat.leb nth firstn skipn le_val].
+  cbn in Hb. repeat (apply andb_prop in Hb as [? Hb]). unfold is_byte in *.
+  rewrite (lor_shift_add p5 p6 8) by (change (2 ^ 8) with 256; lia). do 3 f_equal.
+  change (2 ^ 8) with 256. lia.
+Qed.
+
+Lemma parse_records_enc rs : forall fuel rest, rs <> [] -> forallb wf_rec rs = true ->
+  (length rs <= fuel)%nat -> parse_records fuel (enc_recs rs ++ rest) = Ok (view_recs rs).
+Proof.
+  induction rs as [|r rs' IH]; intros fuel rest Hne Hwf Hfuel; [congruence|].
+  destruct fuel as [|k]; [cbn in Hfuel; lia|].
+  cbn in Hwf. apply andb_prop in Hwf as [Hr Hrs].
+  destruct (view_rec_eol_len true r) as [Et Lt]. destruct (view_rec_eol_len false r) as [Ef Lf].
+  destruct rs' as [|r' rs''].
+  - cbn [enc_recs view_recs parse_records]. rewrite parse_record_enc by assumption. cbn [bind].
+    now rewrite Et.
+  - change (enc_recs (r :: r' :: rs'')) with (enc_rec false r ++ enc_recs (r' :: rs'')).
+    change (view_recs (r :: r' :: rs'')) with (view_rec false r :: view_recs (r' :: rs'')).
+    rewrite <- app_assoc. cbn [parse_records]. rewrite parse_record_enc by assumption. cbn [bind].
+    rewrite Ef, Lf, Nat2N.id.
+    assert (EE : length (enc_rec false r) = (length (sr_payload r) + 5)%nat)
+      by (rewrite enc_rec_length; lia).
+    rewrite <- EE, skipn_app_len. rewrite IH; [reflexivity | discriminate | exact Hrs | cbn in *; lia].
+Qed.
+
+Lemma enc_recs_length_ge rs : (length rs <= length (enc_recs rs))%nat.
+Proof.
+  induction rs as [|r [|r' rs''] IH]; [cbn; lia | cbn [enc_recs]; rewrite enc_rec_length; cbn; lia |].
+  change (enc_recs (r :: r' :: rs'')) with (enc_rec false r ++ enc_recs (r' :: rs'')).
+  rewrite app_length, enc_rec_length. cbn [length] in *. lia.
+Qed.
+
+Lemma enc_recs_nonempty rs : rs <> [] -> enc_recs rs <> [].
+Proof.
+  intros H E. destruct rs as [|r rs']; [congruence|].
+  pose proof (enc_recs_length_ge (r :: rs')) as Hl. rewrite E in Hl. cbn in Hl. lia.
+Qed.
+
+Lemma multi_obj_enc rs : rs <> [] -> forallb wf_rec rs = true ->
+  multi_obj (enc_recs rs) = Ok (MParsed (view_recs rs)).
+Proof.
+  intros Hne Hwf. unfold multi_obj. destruct (enc_recs rs) eqn:E; [now apply enc_recs_nonempty in E|].
+  rewrite <- E. rewrite <- (app_nil_r (enc_recs rs)) at 2.
+  rewrite parse_records_enc; [reflexivity | assumption | assumption |].
+  pose proof (enc_recs_length_ge rs). lia.
+Qed.
+
+(* ---- the whole image ---- *)
+Lemma area_obj_enc dated nf a rest : wf_area dated nf a = true ->
+  area_obj dated nf (enc_area dated a ++ rest) = Ok (Parsed (view_area dated a)).
+Proof.
+  intros Hwf. unfold area_obj. destruct (enc_area dated a ++ rest) eqn:E; [unfold enc_area in E; discriminate|].
+  rewrite <- E, parse_area_enc by assumption. reflexivity.
+Qed.
+
+Lemma off_byte_8 present n : Nat.modulo n 8 = 0%nat ->
+  off_byte present n * 8 = if present then N.of_nat n else 0.
+Proof. intros H. unfold off_byte. destruct present; lia. Qed.
+
+Lemma enc_opt_area_length dated o : Nat.modulo (length (enc_opt_area dated o)) 8 = 0%nat.
+Proof.
+  destruct o as [a|]; cbn [enc_opt_area]; [|reflexivity]. rewrite enc_area_length. apply Nat.mod_mul. lia.
+Qed.
+
+Lemma area_at_enc dated nf o pre post : wf_opt_area dated nf o = true -> (8 <= length pre)%nat ->
+  area_at dated nf (if is_some o then N.of_nat (length pre) else 0)
+          (pre ++ enc_opt_area dated o ++ post) = Ok (view_opt_area dated o).
+Proof.
+  intros Hwf Hpre. unfold area_at. destruct o as [a|]; cbn [is_some enc_opt_area view_opt_area].
+  - replace (N.of_nat (length pre) =? 0) with false by lia.
+    rewrite Nat2N.id, skipn_app_len. now apply area_obj_enc.
+  - reflexivity.
+Qed.
+
+Lemma multi_at_enc rs pre : forallb wf_rec rs = true -> (8 <= length pre)%nat ->
+  multi_at (if nonempty rs then N.of_nat (length pre) else 0) (pre ++ enc_recs rs) =
+  Ok (view_multi rs).
+Proof.
+  intros Hwf Hpre. unfold multi_at. destruct rs as [|r rs']; [reflexivity|]. cbn [nonempty].
+  replace (N.of_nat (length pre) =? 0) with false by lia.
+  rewrite Nat2N.id, skipn_app_len. apply multi_obj_enc; [discriminate | assumption].
+Qed.
+
+Lemma nonempty_enc_recs rs : nonempty (enc_recs rs) = nonempty rs.
+Proof.
+  destruct rs as [|r rs']; [reflexivity|].
+  destruct (enc_recs (r :: rs')) eqn:E; [|reflexivity].
+  exfalso. revert E. apply enc_recs_nonempty. discriminate.
+Qed.
+
+Lemma parse_enc s : wf_inv s = true ->
+  parse_inventory (enc_inventory s) = Ok (Some (view_inventory s)).
+Proof.
+  unfold wf_inv. intros H.
+  apply andb_prop in H as [H Hst]. apply andb_prop in H as [H Hmr]. apply andb_prop in H as [H Hpr].
+  apply andb_prop in H as [H Hbd]. apply andb_prop in H as [H Hch]. apply andb_prop in H as [_ Hint].
+  apply Nat.eqb_eq in Hint. clear Hst.
+  unfold enc_inventory, view_inventory.
+  set (int := s_internal s) in *. set (ch := enc_opt_area false (s_chassis s)).
+  set (bd := enc_opt_area true (s_board s)). set (pr := enc_opt_area false (s_product s)).
+  set (mr := enc_recs (s_multi s)).
+  pose proof (enc_opt_area_length false (s_chassis s)) as Lch. fold ch in Lch.
+  pose proof (enc_opt_area_length true (s_board s)) as Lbd. fold bd in Lbd.
+  pose proof (enc_opt_area_length false (s_product s)) as Lpr. fold pr in Lpr.
+  set (n1 := (8 + length int)%nat). set (n2 := (n1 + length ch)%nat).
+  set (n3 := (n2 + length bd)%nat). set (n4 := (n3 + length pr)%nat).
+  assert (M1 : Nat.modulo n1 8 = 0%nat) by (subst n1; lia).
+  assert (M2 : Nat.modulo n2 8 = 0%nat) by (subst n2; lia).
+  assert (M3 : Nat.modulo n3 8 = 0%nat) by (subst n3; lia).
+  assert (M4 : Nat.modulo n4 8 = 0%nat) by (subst n4; lia).
+  set (h := [1; off_byte (nonempty int) 8; off_byte (is_some (s_chassis s)) n1;
+             off_byte (is_some (s_board s)) n2; off_byte (is_some (s_product s)) n3;
+             off_byte (nonempty mr) n4; 0]).
+  set (hdr := h ++ [zero_sum_byte h]).
+  change (h ++ [zero_sum_byte h] ++ int ++ ch ++ bd ++ pr ++ mr)
+    with (hdr ++ int ++ ch ++ bd ++ pr ++ mr).
+  assert (Lhdr : length hdr = 8%nat) by reflexivity.
+  set (img := hdr ++ int ++ ch ++ bd ++ pr ++ mr).
+  assert (Hhd : parse_header (firstn 8 img) =
+                Ok (mkHeader 1 (off_byte (nonempty int) 8 * 8) (off_byte (is_some (s_chassis s)) n1 * 8)
+                             (off_byte (is_some (s_board s)) n2 * 8) (off_byte (is_some (s_product s)) n3 * 8)
+                             (off_byte (nonempty mr) n4 * 8))).
+  { unfold img. rewrite <- Lhdr, firstn_app_len.
+    pose proof (sum256_zero_sum h) as Hs. fold hdr in Hs.
+    unfold parse_header. unfold hdr at 1, h at 1. cbn [app]. fold h.
+    change [1; off_byte (nonempty int) 8; off_byte (is_some (s_chassis s)) n1;
+            off_byte (is_some (s_board s)) n2; off_byte (is_some (s_product s)) n3;
+            off_byte (nonempty mr) n4; 0; zero_sum_byte h] with hdr.
+    rewrite Hs. reflexivity. }
+  assert (Hne : parse_inventory img =
+    (do h <- parse_header (firstn 8 img);
+     do ch <- area_at false 2 (h_chassis h) img;
+     do bd <- area_at true 5 (h_board h) img;
+     do pr <- area_at false 7 (h_product h) img;
+     do mr <- multi_at (h_multi h) img;
+     Ok (Some (mkInv h ch bd pr mr)))).
+  { unfold parse_inventory. destruct img eqn:E; [discriminate | reflexivity]. }
+  rewrite Hne, Hhd. cbn [bind h_chassis h_board h_product h_multi].
+  rewrite !off_byte_8 by (assumption || reflexivity).
+  (* chassis *)
+  assert (A1 : area_at false 2 (if is_some (s_chassis s) then N.of_nat n1 else 0) img =
+               Ok (view_opt_area false (s_chassis s))).
+  { unfold img. rewrite (app_assoc hdr int). replace n1 with (length (hdr ++ int)) by (rewrite app_length; subst n1; lia).
+    apply area_at_enc; [assumption | rewrite app_length; lia]. }
+  assert (A2 : area_at true 5 (if is_some (s_board s) then N.of_nat n2 else 0) img =
+               Ok (view_opt_area true (s_board s))).
+  { unfold img. rewrite (app_assoc hdr int), (app_assoc _ ch).
+    replace n2 with (length ((hdr ++ int) ++ ch)) by (rewrite !app_length; subst n2 n1; lia).
+    apply area_at_enc; [assumption | rewrite !app_length; lia]. }
+  assert (A3 : area_at false 7 (if is_some (s_product s) then N.of_nat n3 else 0) img =
+               Ok (view_opt_area false (s_product s))).
+  { unfold img. rewrite (app_assoc hdr int), (app_assoc _ ch), (app_assoc _ bd).
+    replace n3 with (length (((hdr ++ int) ++ ch) ++ bd)) by (rewrite !app_length; subst n3 n2 n1; lia).
+    apply area_at_enc; [assumption | rewrite !app_length; lia]. }
+  assert (A4 : multi_at (if nonempty mr then N.of_nat n4 else 0) img =
+               Ok (view_multi (s_multi s))).
+  { unfold img, mr. rewrite nonempty_enc_recs.
+    rewrite (app_assoc hdr int), (app_assoc _ ch), (app_assoc _ bd), (app_assoc _ pr).
+    replace n4 with (length ((((hdr ++ int) ++ ch) ++ bd) ++ pr)) by (rewrite !app_length; subst n4 n3 n2 n1; lia).
+    apply multi_at_enc; [assumption | rewrite !app_length; lia]. }
+  rewrite A1, A2, A3, A4. cbn [bind]. unfold mr. rewrite nonempty_enc_recs.
+  reflexivity.
+Qed.
